@@ -61,6 +61,7 @@ class Engine:
         self.diverged = []
         self.panics = []
         self.cfn_cache = {}
+        self.space_has = [z3.Bool(f'space{k}_declares') for k in range(self.L + 1)]
 
     # ---- graph ---------------------------------------------------------------------------------------
     def wf(self):
@@ -115,6 +116,31 @@ class Engine:
         it._next = self._next
         it.max_depth = 4000
         self.encoded.add(fn.name)
+        orig_place = it.place
+
+        def struct_of(text, p):
+            m = re.fullmatch(r'\(\(\*(_\d+)\)\.(\d+): .*\)', text.strip())
+            if m:
+                v = deref(p.env.get(m.group(1), args.get(m.group(1))))
+                if isinstance(v, Handle) and v.kind == 'struct':
+                    return v, int(m.group(2))
+            return None, None
+
+        def place(text, p):
+            h, k = struct_of(text, p)
+            if h is not None:
+                return p.heap[h.name][k]
+            return orig_place(text, p)
+        it.place = place
+
+        def store(place_text, value, it_, p):
+            h, k = struct_of(place_text, p)
+            if h is None:
+                raise M.MirError('store: ' + place_text)
+            f = list(p.heap[h.name])
+            f[k] = value
+            p.heap[h.name] = tuple(f)
+        it.store_model = store
         return it
 
     def call_fn(self, fn, args, p):
@@ -200,6 +226,33 @@ class Engine:
             if last == 'next':
                 args = [M.Ref(deref(args[0]))]
             return M.Fork(self.call_fn(fn, args, p))
+        if name.endswith('LexicalAncestorSpaces::new'):
+            fnew = self.find_core('new', ret='LexicalAncestorSpaces')
+            outs = []
+            for pcs, heap, ret in self.call_fn(fnew, list(a), p):
+                h = Handle('struct', self.fresh('lexical'))
+                heap = dict(heap)
+                heap[h.name] = tuple(ret.fields)
+                outs.append((pcs, heap, h))
+            return M.Fork(outs)
+        if last == 'next' and isinstance(deref(a[0]), Handle) and deref(a[0]).kind == 'struct':
+            return M.Fork(self.call_fn(self.find_core('next', first='LexicalAncestorSpaces'), [M.Ref(deref(a[0]))], p))
+        if last == 'find_map' and 'LexicalAncestorSpaces' in name:
+            used('Iterator::find_map (std default method): loop over the inlined next() and closure')
+            return M.Fork(self.find_map(a[0], a[1], p, self.find_core('next', first='LexicalAncestorSpaces')))
+        if last == 'lexical_parent':
+            used('lexical_parent: the chain class -> enclosing namespaces, L levels deep')
+            i = deref(a[0]).fields[0]
+            k = i.as_long()
+            return SOME(M.Ref(M.Adt('Space', [z3.IntVal(k + 1)]))) if k < self.L else NONE()
+        if last == 'get_type' and isinstance(deref(a[0]), M.Adt) and deref(a[0]).path == 'Space':
+            used('get_type of one type space: declared there or not (one symbolic bit per space)')
+            k = deref(a[0]).fields[0].as_long()
+            return M.Fork([([self.space_has[k]], None, SOME(OK(M.Adt('Type', [z3.IntVal(k)])))), ([z3.Not(self.space_has[k])], None, NONE())])
+        if last == 'or_else' and variant(a[0]) in ('Some', 'None'):
+            if variant(a[0]) == 'Some':
+                return deref(a[0])
+            return M.Fork(self.invoke(a[1], [], p))
         if last in NO_SUPER:
             used('member tables: class c declares the queried member iff declares[c] (HashMap / MethodDataTable / inner type map lookups are not encoded)')
             idx = deref(a[0]).fields[0]
@@ -306,8 +359,20 @@ class Engine:
             return M.Fork([([b], None, SOME(a[1])), ([z3.Not(b)], None, NONE())])
         return None
 
-    def find_map(self, it_ref, clo, p):
-        next_fn = self.resolve('<BaseClasses as Iterator>::next')
+    L = 2
+
+    def find_core(self, last, ret=None, first=None):
+        key = ('core', last, ret, first)
+        if key not in self.cfn_cache:
+            cands = [f for n, f in self.fns.items() if n.split('::')[-1] == last and 'src/typemap/core.rs' in n
+                     and (ret is None or ret in f.header.split(' -> ')[-1]) and (first is None or first in f.param_types.get('_1', ''))]
+            if len(cands) != 1:
+                raise M.MirError(f'{len(cands)} MIR bodies for core::{last}')
+            self.cfn_cache[key] = cands[0]
+        return self.cfn_cache[key]
+
+    def find_map(self, it_ref, clo, p, next_fn=None):
+        next_fn = next_fn or self.resolve('<BaseClasses as Iterator>::next')
         results = []
         work = [([], p.heap, 0)]
         while work:
@@ -444,6 +509,46 @@ def obligations(fns, consts, N, S):
         return [(z3.Not(z3.And(eng.reach(R, A, d), eng.reach(R, B, d))), 'the common base is not an ancestor-or-self of both classes')]
     run_one(mk('common_base_class', 'common_base_class', 'terminates; the result is an ancestor-or-self of both classes; none only if there is none (or a dangling reference is involved)'),
             'common_base_class', [cls(A), cls(B)], lambda e: [], judge_common)
+    # ---- resolve_type: own scope first, then the lexical ancestors from the inside out
+    if (N, S) == (2, 2):
+        ob = O._ob('c17_mir_resolve_type[L=2]', 'typemap::core::TypeSpace::resolve_type + its closures + LexicalAncestorSpaces::{new,next} (inlined MIR)',
+                   'a type space with two enclosing spaces (class -> namespace -> outer namespace); the name is declared by an arbitrary subset of the three spaces',
+                   'the type is taken from the innermost space that declares the name: the space itself first, then its lexical ancestors from the inside out; none only if no space declares it')
+        t0 = time.time()
+        eng = Engine(fns, consts, N, S)
+        bad = []
+        try:
+            fn = M.find_fn(fns, r'TypeSpace::resolve_type$')
+            p = M.Path()
+            p.pc, p.heap = [], {}
+            outs = eng.call_fn(fn, [M.Ref(M.Adt('Space', [z3.IntVal(0)])), M.Opaque('name')], p)
+            cover = []
+            for pcs, heap, val in outs:
+                cover.append(z3.And(pcs) if pcs else z3.BoolVal(True))
+                h = eng.space_has
+                if variant(val) == 'None':
+                    cond, msg = z3.Or(h), 'the name is not found although a space declares it'
+                else:
+                    k = deref(deref(val).fields[0]).fields[0].fields[0].as_long()
+                    cond, msg = z3.Not(z3.And([h[k]] + [z3.Not(h[j]) for j in range(k)])), f'the type is taken from space {k} although an inner space declares the name (or space {k} does not)'
+                r = M.check(pcs + [cond], 60000)
+                if r == 'unknown':
+                    bad.append('UNKNOWN: ' + msg)
+                elif r != 'unsat':
+                    cx = {'declares': [bool(z3.is_true(r[1].eval(x, model_completion=True))) for x in h], 'result': repr(val)[:60]}
+                    ob.setdefault('counterexamples', []).append(cx)
+                    bad.append(f'{msg}: {cx}')
+            r = M.check([z3.Not(z3.Or(cover))] if cover else [], 60000)
+            if r != 'unsat':
+                bad.append('some declaration pattern has no outcome')
+            ob['outcomes'] = len(outs)
+            O._finish(ob, t0, bad, unknown=bool(bad) and all(b.startswith('UNKNOWN') for b in bad))
+            ob['functions_inlined'] = sorted(eng.encoded)
+            ob['library_models'] = sorted(eng.models_used)
+        except (M.MirError, AttributeError) as e:
+            O._finish(ob, t0, ['MIR: ' + str(e)], unknown=True)
+            ob['detail'] = 'MIR: ' + str(e)
+        obs.append(ob)
     return obs
 
 
@@ -532,10 +637,44 @@ def violates(kind, cx, out):
     return None
 
 
+def replay_resolve_type(ob, workdir):
+    """class C0 (with or without a nested enum MemberEnum) in a module that has or has not a top-level class MemberEnum"""
+    import subprocess
+    drv, err = build_driver()
+    if drv is None:
+        return False, {'error': 'replay driver does not build: ' + err}
+    failed, tried = [], 0
+    pats = [tuple(c['declares'][:2]) for c in ob.get('counterexamples') or []] + [(True, True), (False, True), (True, False)]
+    for d0, d1 in dict.fromkeys(pats):
+        classes = [{"className": "C0", "qualifiedClassName": "C0", "object": True}]
+        if d0:
+            classes[0]["enums"] = [{"isClass": False, "isFlag": False, "name": "MemberEnum", "values": ["MemberVariant"]}]
+        if d1:
+            classes.append({"className": "MemberEnum", "qualifiedClassName": "MemberEnum", "object": True})
+        spec = {"classes": classes, "queries": [{"kind": "resolve_type", "a": "C0", "b": "C0"}]}
+        tried += 1
+        try:
+            r = subprocess.run([drv], input=json.dumps(spec), capture_output=True, text=True, timeout=20)
+            m = re.search(r'RESULT (.*)', r.stdout)
+            out = m.group(1).strip() if m else 'PANIC ' + r.stderr.strip()[-200:]
+        except subprocess.TimeoutExpired:
+            out = 'TIMEOUT'
+        want = 'Ok(C0::MemberEnum)' if d0 else ('Ok(MemberEnum)' if d1 else 'None')
+        if out != want:
+            with open(os.path.join(workdir, f'scope{tried}.json'), 'w') as f:
+                json.dump(spec, f, indent=1)
+            failed.append({'query': 'resolve_type', 'class_declares': d0, 'module_declares': d1, 'real_result': out, 'expected': want, 'why': 'not the innermost declaration'})
+    with open(os.path.join(workdir, 'README.txt'), 'w') as f:
+        f.write('cargo run (harness/c17replay, linked against /repo/lib) < scopeN.json\n' + json.dumps(failed, indent=1) + '\n')
+    return bool(failed), {'tried': tried, 'failed_probes': failed}
+
+
 def replay_graphs(ob, workdir):
     import subprocess
     os.makedirs(workdir, exist_ok=True)
     kind = re.match(r'c17_mir_(\w+?)\[', ob['name']).group(1)
+    if kind == 'resolve_type':
+        return replay_resolve_type(ob, workdir)
     drv, err = build_driver()
     if drv is None:
         return False, {'error': 'replay driver does not build: ' + err}
